@@ -14,7 +14,7 @@
              "cached"  plain pipe server, RpcServer.serve attaches the segment the client names and keeps it for the
                        connection (_ConnectionShm) -- what a pooled / subprocess worker does
              "percall" plain pipe server whose owner drives serve_one() itself: attach and detach per call
-   seg     how many times the client has moved on to a fresh segment on the same connection (a pooled worker handed to
+   seg     [n, used]: how many times the client has moved on to a fresh segment on the same connection (a pooled worker handed to
            the next borrower: WorkerPool gives every borrow its own segment); the server must follow the name
    fx      the repairs present in the code (see below)
    A payload class stands for a batch's rows AND its application metadata (exchange inputs and stream outputs carry
@@ -35,6 +35,11 @@
                batch is tracked as prev_input: nobody releases its region
      "stray"   the input stream of a header-less stream call rejected by init is swallowed by the serve loop without
                resolving/releasing the pointer batch in it
+     "reqseg"  ("cached" servers) the first request after the client moved to a fresh segment is itself routed through
+               that segment, but RpcServer.serve_one decodes it against the segment still in the connection cache and
+               refreshes the cache only afterwards: the pointer is resolved in the old segment (stale bytes -> some
+               other call is executed), the region in the new one is never freed.  What the server does from there
+               on is undefined: pc = "chaos".
      "cb"      the client's log callback raises before a batch is read: the rest of a unary response is drained raw,
                a stream's pending output is resolved by close()/cancel() while draining and dropped unreleased       *)
 EXTENDS Integers, FiniteSets, TLC
@@ -49,14 +54,14 @@ CONSTANTS Configs,                      \* set of [cap, world]
           NBytes(_), Rows(_),           \* RecordBatch.nbytes / num_rows of the class's batches
           Thr(_),                       \* world -> VGI_RPC_SHM_MIN_BATCH_BYTES
           Allowed(_, _)                 \* world, class -> is the class part of that world's palette (keeps the space small)
-AllFixes == {"coerce", "stray", "cb"}
+AllFixes == {"coerce", "stray", "cb", "reqseg"}
 
 VARIABLES cfg, fx, mem, held, st, bad, seg
 vars == <<cfg, fx, mem, held, st, bad, seg>>
 
 Idle == [pc |-> "idle", k |-> "-", ci |-> "-", co |-> "-", fail |-> "-", nout |-> 0, n |-> 0, prev |-> -1, io |-> -1,
          mine |-> {}]
-Init == /\ cfg \in Configs /\ fx \in FixSets /\ mem = {} /\ held = {} /\ st = Idle /\ bad = {} /\ seg = 0
+Init == /\ cfg \in Configs /\ fx \in FixSets /\ mem = {} /\ held = {} /\ st = Idle /\ bad = {} /\ seg = [n |-> 0, used |-> FALSE]
 
 \* ------------------------------------------------------------------------------ the allocator (first fit, shm.py)
 Min(S) == CHOOSE x \in S : \A y \in S : x <= y
@@ -88,10 +93,15 @@ BeginUnary(rq, res, out) ==
   \* "err": the method raises; "unk": the request names a method the server does not have (rejected before dispatch,
   \* but after the request batch -- possibly a shm pointer -- has been decoded)
   /\ out \in {"err", "unk"} => res = (CHOOSE r \in ResC : Allowed(cfg.world, r))
-  /\ LET w == IF rq = "-" THEN Inline(mem) ELSE WriteToShm(mem, rq, "c2s") IN
-     /\ mem' = w.m
-     /\ st' = [Idle EXCEPT !.pc = "u_srv", !.k = "u", !.ci = rq, !.co = res, !.fail = out, !.io = w.off]
-  /\ UNCHANGED <<seg, cfg, fx, held, bad>>
+  /\ LET w == IF rq = "-" THEN Inline(mem) ELSE WriteToShm(mem, rq, "c2s")
+         stale == w.off # -1 /\ cfg.att = "cached" /\ seg.n > 0 /\ ~seg.used /\ "reqseg" \notin fx IN
+     IF stale
+     THEN /\ mem' = Hand(w.m, w.off, "lost") /\ bad' = bad \cup {"garbage"}
+          /\ st' = [Idle EXCEPT !.pc = "chaos", !.k = "u", !.ci = rq, !.co = res, !.fail = out]
+     ELSE /\ mem' = w.m /\ UNCHANGED bad
+          /\ st' = [Idle EXCEPT !.pc = "u_srv", !.k = "u", !.ci = rq, !.co = res, !.fail = out, !.io = w.off]
+  /\ seg' = [seg EXCEPT !.used = TRUE]
+  /\ UNCHANGED <<cfg, fx, held>>
 SUnary ==
   /\ st.pc = "u_srv"
   /\ LET m1 == IF st.io = -1 THEN mem ELSE Free(mem, st.io)                 \* _read_request: resolve, as_py, release
@@ -123,7 +133,8 @@ BeginStream(k, ci, co, fail, nout) ==
   /\ fail = "init" => cfg.att # "percall"      \* the stray-input bookkeeping belongs to serve(); a bare serve_one loop has none
   /\ nout \in 0..(MaxTicks - 1) /\ (fail \in {"none", "init", "schema"} => nout = 0)
   /\ st' = [Idle EXCEPT !.pc = "s_cli", !.k = k, !.ci = ci, !.co = co, !.fail = fail, !.nout = nout]
-  /\ UNCHANGED <<seg, cfg, fx, mem, held, bad>>
+  /\ seg' = [seg EXCEPT !.used = TRUE]
+  /\ UNCHANGED <<cfg, fx, mem, held, bad>>
 InClass == IF st.fail = "schema" /\ st.n = st.nout THEN WrongC ELSE st.ci
 CInput ==
   /\ st.pc = "s_cli" /\ st.n < MaxTicks
@@ -200,8 +211,9 @@ ReleaseHeld(o) ==
 
 \* between calls, with nothing held, the client goes on with a fresh (empty) segment on the same connection
 NewSegment ==
-  /\ st.pc = "idle" /\ cfg.att \in {"cached", "percall"} /\ mem = {} /\ held = {} /\ seg < MaxSeg
-  /\ seg' = seg + 1
+  /\ st.pc = "idle" /\ cfg.att \in {"cached", "percall"} /\ mem = {} /\ held = {} /\ seg.n < MaxSeg
+  /\ seg.used                    \* the server has seen (and attached) the segment that is now given up
+  /\ seg' = [n |-> seg.n + 1, used |-> FALSE]
   /\ UNCHANGED <<cfg, fx, mem, held, st, bad>>
 
 Next == \/ \E rq \in ReqC \cup {"-"}, res \in ResC, out \in {"ok", "err", "cb", "unk"} : BeginUnary(rq, res, out)
